@@ -66,8 +66,8 @@ Proof. exact (sort_keeps_sorted_subsequence r_off). Qed.
    at tempo 120: a half note written s0 + l lasts 1 s in the repaired model, 1.5 s in the old one *)
 Example C03_events_unscaled_refuted :
   let rows := [mkRow 0 0 1 66 0 false false; mkRow 0 1 1 66 0 false true] in
-  map (fun e => Qeq_bool (e_dur e) (secs 1 120 2)) (matrix_to_events true 1 120 rows) = [true] /\
-  map (fun e => Qeq_bool (e_dur e) (secs 1 120 2)) (matrix_to_events false 1 120 rows) = [false].
+  map (fun e => Qeq_bool (e_dur e) (secs 1 (120#1) 2)) (matrix_to_events true 1 (120#1) rows) = [true] /\
+  map (fun e => Qeq_bool (e_dur e) (secs 1 (120#1) 2)) (matrix_to_events false 1 (120#1) rows) = [false].
 Proof. exact events_unscaled_refuted. Qed.
 
 (* non-vacuity: (I % I.M)(piano = s0 + l + r + l + su1, violin absent) + (V % I.M)(piano = l + s2, violin = s4) *)
